@@ -7,7 +7,7 @@ TRUSTED_BASE = [
     "the reading of the English property as the Coq statements in coq/Props (DESIGN.md section 6)",
 ]
 
-HOOK_COMMITS = ["461a825"]
+HOOK_COMMITS = ["461a825", "4086e31"]
 NOT_APPLICABLE = {}
 
 DOMAINS = {
@@ -40,6 +40,7 @@ SOLVER_NOTE = ("Trusted: Coq kernel, extraction, harness/driver, the oracles of 
 
 def solver_prop(props, level, technique, text, note_extra="", domains=("solver",), extra=None):
     d = {"props": props, "level": level, "technique": technique, "level_text": text,
+         "obs_fields": {"solver": ["res"], "faults": ["res"]},
          "level_note": SOLVER_NOTE + (" " + note_extra if note_extra else ""),
          "domains": list(domains), "rule": SOLVER_RULE, "exhaustive": False,
          "assumptions": ["provider is well-behaved w.r.t. the generated registry (except in the fault domain)"],
@@ -72,7 +73,8 @@ PROPS = {
     "C06": solver_prop("Props/Properties_C06.v", "proof",
         "Coq proof by invariant over the solver model: every store entry is justified by its kind and valid (external constructors, merged dependents, rule of resolution), preserved by unit propagation, conflict resolution, backtracking and the main loop",
         "4 Coq theorems: for every lawful VersionSet, registry, well-behaved trace and fuel, every incompatibility in the model's store (external, merged, learned, intermediate prior causes; runs ending in Ok, NoSolution, errors or cut short) is valid: no solution makes all its terms true. Tie: full-trace correspondence; oracle: validity of every store entry of the replayed run against all solutions of the registry (complete enumeration on small registries).",
-        "The store itself is the model's (the Rust arena is private); it is tied to the code through the trace/tree correspondence."),
+        "The Rust arena is observed through the add-only cfg(pubgrub_verif) hook (a Drop impl that leaves a rendering of every recorded incompatibility in a thread-local); it must equal the model's store entry by entry (kind, cause ids, terms), and the oracle checks every entry of the Rust store against all solutions.",
+        extra={"obs_fields": {"solver": ["res", "store"]}}),
     "C07": solver_prop("Props/Properties_C07.v", "other",
         "repeat-run comparison in one process and across fresh processes, integer and string package names; the Coq model is a function of the provider answers",
         "A Gallina function is deterministic by construction, so the content is that the Rust code is such a function. Every case is run twice in-process (trace and result compared) and the whole case stream is produced a second time by a fresh process with a different environment and compared byte for byte; the model must reproduce every trace from the recorded answers alone. Coq (1 theorem): the model's result depends only on the consumed prefix of the answers.",
